@@ -21,7 +21,7 @@ The laws that separate the pinned tree from a repaired one (ChildThreadsOne / De
 BUG_NBRESET) are checked by TLC on the model of the tree under test; a TLC counterexample is replayed on the real code
 and judged there before it is reported.
 """
-import os, sys, json, time, ast, re, subprocess, concurrent.futures
+import os, sys, json, time, ast, re, struct, subprocess, warnings, concurrent.futures
 import common
 
 PROP = "X07"
@@ -30,12 +30,12 @@ FIND_INHERIT = "X07-fork-child-keeps-parent-threads"
 FIND_NBRESET = "X07-numba-launch-overrides-omp-threads"
 PARALLEL = 8
 ACTIONS = ["PutEnv", "SetStart", "Import", "SetThreads", "Kernel", "CheckMP", "Launch", "NbGet", "NbSet", "NbKernel",
-           "User", "TStart", "TCheck", "TWork", "TRaise", "StopSet"]
+           "User", "ImportPBP", "TStart", "TCheck", "TWork", "TRaise", "StopSet"]
 
 # laws that hold for the pinned tree and for a repaired one
 LAWS_INV = ["TypeOK", "RegPositive", "SafeNeverStuck", "StopBound", "LateNoWork"]
 LAWS_PROP = ["SetGet", "WarnRule", "PatchSafe", "OneThreadNeverStuck", "Restore", "StopSticky", "DoneIsFinal",
-             "RaiseStops", "FlagPerProcess"]
+             "RaiseStops", "FlagPerProcess", "PbpOneThread"]
 # (flag of the tree variant, law, static configuration that must violate it, finding id)
 DEFECT_LAWS = [("bug_inherit", "ChildThreadsOne", "law_child1", FIND_INHERIT),
                ("bug_inherit", "DefaultNoHang", "law_nohang", FIND_INHERIT),
@@ -61,7 +61,8 @@ def references():
     acc = np.zeros(16, dtype=np.float32)
     np.add.at(acc, ind, vals)
     refk = {"k1": int((cor.astype(np.int64) * (i % 17 + 1)).sum()), "k2n": int(ret.sum()),
-            "k2": int((ret.ravel() * (i % 19 + 1)).sum()), "pi": [int(x) for x in acc]}
+            "k2": int((ret.ravel() * (i % 19 + 1)).sum()), "pi": [int(x) for x in acc],
+            "pi_route": "put_incr%d" % (8 * struct.calcsize("P"))}      # "For 32 or 64 bits" (cImageD11.py:118)
     a = (np.arange(200, dtype=np.float64) * 37 % 101) / 10.0 - 2.0
     b = np.floor(a * 2.0).astype(np.int64).clip(0, 6)    # array_bin's docstring
     lt = a < 3.05
@@ -299,8 +300,12 @@ def scan_users(repo):
                 continue
             path = os.path.join(dp, f)
             rel = os.path.relpath(path, repo)
+            if rel == os.path.join("ImageD11", "cImageD11.py"):
+                continue                # the module itself (check_multiprocessing is an action of the specification)
             try:
-                tree = ast.parse(open(path, encoding="utf-8", errors="replace").read())
+                with warnings.catch_warnings():
+                    warnings.simplefilter("ignore")
+                    tree = ast.parse(open(path, encoding="utf-8", errors="replace").read())
             except SyntaxError:
                 continue
             _scan_tree(tree, rel, found)
@@ -405,8 +410,8 @@ def judge_law(law, hist, out):
         touched = any(x["op"][1] == "C" and x["op"][0] in ("set", "nbget", "nbset", "nbkernel") for x in steps[:-1])
         if s["op"][:2] == ["kernel", "C"] and s["cstate"] == "stuck" and not warned and not touched \
                 and steps[-2]["C"] is not None and steps[-2]["C"]["envomp"] == "":
-            return ("the child hangs in its first OpenMP kernel (no answer within the step limit, confirmed with a 20 s "
-                    "limit): OMP_NUM_THREADS unset, the child never set a thread count, no fork warning was raised in "
+            return ("the child hangs in its first OpenMP kernel (no answer, every thread of the child asleep without "
+                    "using cpu time): OMP_NUM_THREADS unset, the child never set a thread count, no fork warning was raised in "
                     "either process; it inherited %s threads" % steps[-2]["C"]["reg"])
         return None
     if law == "RegFrame":
@@ -555,8 +560,9 @@ def run(tier, replay=None):
     chk.assumptions = ["platform facts the model states (header of ProcState.tla) hold for CPython 3.12 multiprocessing, "
                        "GNU libgomp and numba 0.67 with its OpenMP threading layer; versions are recorded in the evidence "
                        "and the numba configurations are skipped (noted) under another threading layer",
-                       "a child that does not answer a step within 2.5 s - and again within 20 s when that contradicts the "
-                       "model - is stuck",
+                       "a child that does not answer a step within 1 s while all its threads sleep without using cpu time "
+                       "(or within 20 s otherwise) is stuck; a difference from the model must reproduce in a second run "
+                       "that waits the full 20 s",
                        "thread counts <= 4, affinity masks of 1..4 cpus, one child per behaviour",
                        "do_index runs with stub indexer / columnfile objects (its own body is the real one)"]
     flags = probe(runner)
@@ -579,16 +585,18 @@ def run(tier, replay=None):
         return res
 
     # 1. exhaustive small configurations, every transition replayed
-    conf = [("core_q", "core: import / set / kernel / check_multiprocessing / launch"),
-            ("start_q", "start methods x contexts"),
-            ("env_q", "environment: OMP_NUM_THREADS, affinity, SLURM, putenv, set(n <= 0)"),
+    conf = [("core_q", "core: import / set / kernel / launch"),
+            ("hang_q", "fork children after the parent used OpenMP"),
+            ("start_q", "start methods x contexts x check_multiprocessing"),
+            ("env_q", "environment: OMP_NUM_THREADS, affinity, SLURM, putenv"),
+            ("set_q", "set(n), n = -1 0 1 3"),
             ("thr_q", "worker threads and the stop flag"),
-            ("user_q", "do_index")]
+            ("user_q", "do_index; table of users")]
     if with_nb:
         conf.append(("nb_q", "numba launch / get / set"))
     if tier == "thorough":
         conf += [("core_t", "core, depth 5"), ("start_t", "start methods, depth 5"), ("env_t", "environment, all values"),
-                 ("thr_t", "worker threads, depth 7")]
+                 ("thr_t", "worker threads, depth 6"), ("pbp_t", "import ImageD11.sinograms.point_by_point")]
         if with_nb:
             conf += [("nb_t", "numba, depth 5"), ("nbk_t", "numba kernels (array_bin, array_lt)")]
     elif with_nb:
@@ -597,13 +605,19 @@ def run(tier, replay=None):
     for name, label in conf:
         res = tlc(name, "ProcState %s (%s; every transition emitted)" % (name, label))
         behs, ntrans = behaviours(res)
+        if name == "pbp_t":
+            # point_by_point compiles cached numba functions at its first import: fill the cache once, serially
+            runner.run({"cores": 2, "slurm": 0, "omp": 0}, [["pbp", "P"]])
         n, dt = judge.replay_all(name, behs)
         counts[name] = {"transitions": ntrans, "behaviours_replayed": n, "replay_s": round(dt, 1)}
+        if name == "user_q":
+            users_res = res
     # 2. seeded random long behaviours over the whole alphabet
-    nsim, sdepth = (60, 8) if tier == "quick" else (1500, 10)
+    nsim, sdepth = (40, 8) if tier == "quick" else (1500, 10)
     res = tlc("sim" if with_nb else "sim_nonb", "ProcState simulate %d x depth %d (seed %d)" % (nsim, sdepth, common.seed()),
               subst={"MaxDepth": sdepth}, simulate=nsim, depth=sdepth + 1, seed_=common.seed(), workers=1)
     behs, ntrans = behaviours(res)
+    behs = behs[:nsim]              # TLC's num= counts differently; the first nsim distinct behaviours are used
     n, dt = judge.replay_all("sim", behs)
     counts["sim"] = {"behaviours": ntrans, "behaviours_replayed": n, "replay_s": round(dt, 1)}
     chk.notes["configurations"] = counts
@@ -615,13 +629,13 @@ def run(tier, replay=None):
             continue
         if not flags[flag]:
             continue        # the law is a PROPERTY of every configuration above (cfg_variant)
-        r = common.run_tlc("ProcState", os.path.join(common.SPECS, "ProcState_%s.cfg" % cfgname), workers=8, timeout=600)
+        r = common.run_tlc("ProcState", os.path.join(common.SPECS, "ProcState_%s.cfg" % cfgname), workers=1, timeout=600)
         chk.add_tlc("ProcState %s (expected: %s violated)" % (cfgname, law), r)
         if law not in r.violated:
             raise common.MachineryError("configuration %s does not violate %s (vacuity)" % (cfgname, law))
         env, hist = counterexample(r)
         ops = [h["op"] for h in hist]
-        out, err = runner.run(env, ops, 0, long_wait=True)
+        out, err = runner.run(env, ops, 0, long_wait=(tier != "quick"))
         if out is None:
             raise common.MachineryError("counterexample %s could not be replayed: %s" % (ops, err))
         conforms = compare_behaviour(hist, out, refk, refnb) is None
@@ -639,11 +653,15 @@ def run(tier, replay=None):
             chk.violation(what, {"kind": "law", "law": law, "env": env, "hist": hist})
 
     # 4. the users that change a thread count
-    check_users(chk, flags)
+    check_users(chk, flags, users_res)
 
     # 5. deeper model checking without replay (laws only)
     if tier == "thorough":
-        res = tlc("all_t", "ProcState all operations, depth 5 (laws only)", cover=ACTIONS, timeout=1500)
+        res = tlc("all_t", "ProcState all operations, depth 6 (laws only)", cover=ACTIONS, timeout=1500)
+        rf = common.run_tlc("ProcState", os.path.join(common.SPECS, "ProcState_fixed_t.cfg"), workers=8, timeout=1500)
+        chk.add_tlc("ProcState fixed_t: the model of a repaired module (BUG_* = FALSE) satisfies every law, depth 6", rf)
+        if rf.violated:
+            raise common.MachineryError("the repaired model violates %s" % rf.violated)
         selftest(runner, refk, refnb)
     chk.notes["behaviour_classes_replayed"] = judge.stats
     chk.notes["violation_classes"] = judge.classes
@@ -656,12 +674,16 @@ def run(tier, replay=None):
     return chk.finish()
 
 
-def check_users(chk, flags):
-    r = common.run_tlc("ProcState", os.path.join(common.SPECS, "ProcState_users.cfg"), workers=1, timeout=300)
-    chk.add_tlc("ProcState users table", r)
+def check_users(chk, flags, r=None):
+    if r is None:
+        r = common.run_tlc("ProcState", os.path.join(common.SPECS, "ProcState_users.cfg"), workers=1, timeout=300)
+        chk.add_tlc("ProcState users table", r)
     table = None
     for line in r.printed:
-        d = json.loads(line)
+        try:
+            d = json.loads(line)
+        except ValueError:
+            continue
         if "users" in d:
             table = set((u["file"], u["func"], u["api"], u["kind"]) for u in d["users"])
     if not table:
